@@ -156,6 +156,16 @@ func main() {
 			}
 			l.StrDef(f.lean, p.Src(d.Body), "router: body of "+strings.TrimPrefix(f.recv+".", ".")+f.name)
 		}
+		// service/service.go: how the two resolver arguments of Config.Router are built
+		sv, err := load(c.Repo, "service", "service.go")
+		if err != nil {
+			return err
+		}
+		loop, err := serviceResolverLoop(sv)
+		if err != nil {
+			return fmt.Errorf("service.Config.Manager: %w", err)
+		}
+		l.StrDef("srcServiceResolverLoop", loop, "service/service.go: the loop that fills `resolvers` and `resolverMap` (same object in both, duplicate names refused)")
 		ds, err := load(c.Repo, "domainset", "matcher_domain.go")
 		if err != nil {
 			return err
@@ -167,6 +177,58 @@ func main() {
 		l.NatDef("MaxLinearDomains", v, "domainset.MaxLinearDomains")
 		return nil
 	})
+}
+
+// serviceResolverLoop finds, in service.go, the `for i := range sc.DNS` loop and checks its shape: a duplicate-name
+// check on resolverMap, one NewSimpleResolver call, `resolvers[i] = resolver`, `resolverMap[resolverConfig.Name] = resolver`;
+// and that exactly these two variables are what Config.Router receives. Returns the loop's source text.
+func serviceResolverLoop(p *pkg) (string, error) {
+	var loop *ast.RangeStmt
+	routerCall := ""
+	for _, f := range p.files {
+		ast.Inspect(f, func(n ast.Node) bool {
+			switch x := n.(type) {
+			case *ast.RangeStmt:
+				if p.Src(x.X) == "sc.DNS" {
+					if loop != nil {
+						loop = nil
+						return false
+					}
+					loop = x
+				}
+			case *ast.CallExpr:
+				if p.Src(x.Fun) == "sc.Router.Router" {
+					routerCall = p.Src(x)
+				}
+			}
+			return true
+		})
+	}
+	if loop == nil {
+		return "", fmt.Errorf("no (single) `range sc.DNS` loop")
+	}
+	if !strings.HasPrefix(routerCall, "sc.Router.Router(logger, resolvers, resolverMap, ") {
+		return "", fmt.Errorf("unrecognised router construction: %s", routerCall)
+	}
+	b := loop.Body.List
+	if p.Src(loop.Key) != "i" || len(b) != 6 {
+		return "", fmt.Errorf("unrecognised loop: %.200s", p.Src(loop))
+	}
+	want := []string{
+		"resolverConfig := &sc.DNS[i]",
+		"if _, ok := resolverMap[resolverConfig.Name]; ok { return nil, fmt.Errorf(",
+		"resolver, err := resolverConfig.NewSimpleResolver(",
+		"if err != nil { return nil, fmt.Errorf(",
+		"resolvers[i] = resolver",
+		"resolverMap[resolverConfig.Name] = resolver",
+	}
+	for i, w := range want {
+		got := p.Src(b[i])
+		if got != w && !(strings.HasSuffix(w, "(") && strings.HasPrefix(got, w)) {
+			return "", fmt.Errorf("loop statement %d: %.160s", i, got)
+		}
+	}
+	return p.Src(loop), nil
 }
 
 // ---------- (*XPortSetCriterion).Meet ----------
